@@ -29,7 +29,8 @@ Every source line gets one of three statuses
          at module level; the ``def``/decorator lines of a scope excluded *by name* (they run in the
          enclosing scope); with ``only_cover``: the own statements and the code object of every scope
          that (properly) encloses a listed scope (they must be instrumented to reach it); scopes whose
-         qualified name is ambiguous.
+         qualified name is ambiguous; a clause (``else``/``elif``/``except``/``finally``/``case``) directly below a
+         comment-only line that carries the marker (pynguin treats the lines between two bodies as the label).
 
 Marker semantics (Coverage.py's rule, which the docs refer to): a marker excludes its own line; on
 a line that introduces a clause (``if``/``elif``/``else``/``for``/``while``/``try``/``except``/
@@ -291,7 +292,13 @@ class Model:
         for c in order:
             if c in found:
                 return c
-        if not self.lines[line - 1].strip():
+        text = self.lines[line - 1].strip()
+        if not text or text.startswith("#"):
+            # a marker there is a comment of its own: name what follows (pynguin looks at the lines before a clause)
+            for nxt in range(line + 1, self.n + 1):
+                t = self.lines[nxt - 1].strip()
+                if t and not t.startswith("#"):
+                    return f"blank<{self.construct_at(nxt)}"
             return "blank"
         return "continuation"
 
@@ -329,6 +336,14 @@ class Expectation:
         for ln, kind in self.markers:
             construct = m.construct_at(ln)
             mark(ln, ln, EXC, (kind, construct, ("line", ln)))
+            if construct.startswith("blank<"):
+                # a marker comment on a line of its own directly above a clause label: latitude for that clause
+                nxt = next(x for x in range(ln + 1, n + 1)
+                           if m.lines[x - 1].strip() and not m.lines[x - 1].strip().startswith("#"))
+                for r in m.regions:
+                    if r.trigger == nxt and r.construct in ("else", "loop-else", "try-else", "finally", "elif",
+                                                            "except", "case"):
+                        mark(r.first, r.last, ANY, (kind, construct, ("line", ln)))
             for r in m.regions:
                 if r.trigger == ln:
                     mark(r.first, r.last, r.strength, (kind, r.construct, ("line", ln)))
@@ -833,6 +848,32 @@ class K:
         else:
             a = 5
         return a
+"""),
+    ("blank_lines", ["f"], """\
+def f(a, b):
+    x = 0
+    if a:
+        x = 1
+
+    elif b:
+        x = 2
+    # comment
+    else:
+        x = 3
+    try:
+        x += 1
+
+    except ValueError:
+        x = 4
+
+    finally:
+        x += 5
+    for v in b:
+        x += v
+
+    else:
+        x = 6
+    return x
 """),
     ("compound_conditions", ["f"], """\
 def f(a, b):
